@@ -65,52 +65,97 @@ def _hash(obj) -> str:
 # ------------------------------------------------------------------------------------------------
 # workload
 # ------------------------------------------------------------------------------------------------
+def _planned_shards(rng: random.Random):
+    """A sharded layout chosen shard by shard instead of by one random ``max_shard_size_bytes``:
+    every shard starts with an *anchor* object larger than half the shard limit (so the greedy
+    sharder opens a new file there) followed by 0-3 small objects.  Shards therefore differ in
+    tensor count (single-tensor shards are written by their shard driver, larger ones by an inner
+    pool when ``max_workers`` leaves threads over) and one anchor may start several shards, i.e.
+    one tensor object is evaluated by writers of different kinds.  The plan is only a generator
+    hint: no verdict depends on the layout the library actually chooses."""
+    n_shards = rng.choice([2, 2, 2, 3, 3, 4])
+    counts = [rng.choice([1, 1, 2, 3, 4]) for _ in range(n_shards)]
+    if rng.random() < 0.7 and (1 not in counts or max(counts) == 1):
+        i, j = rng.sample(range(n_shards), 2)
+        counts[i], counts[j] = 1, rng.randint(2, 4)
+    limit = rng.randint(64, 6000)
+    n_anchor = rng.randint(1, n_shards)
+    sizes = [rng.randint(limit // 2 + 1, max(limit // 2 + 1, limit * 4 // 5)) for _ in range(n_anchor)]
+    room = limit - max(sizes)
+    n_small = rng.randint(1, 4)
+    sizes += [rng.randint(1, max(1, room // 3)) for _ in range(n_small)]
+    uses = []
+    for c in counts:
+        shard = [rng.randrange(n_anchor)] + [n_anchor + rng.randrange(n_small) for _ in range(c - 1)]
+        if rng.random() < 0.2:
+            rng.shuffle(shard)
+        uses += shard
+    used = sorted(set(uses))  # drop objects no shard uses
+    uses = [used.index(o) for o in uses]
+    workers = max(2, min(16, n_shards * rng.choice([1, 2, 3, 3, 4]) + rng.randint(0, 2)))
+    return [sizes[o] for o in used], uses, limit, workers
+
+
 def gen_spec(rng: random.Random) -> dict:
-    """One save: tensor objects, their uses (an object may back several initializers), sizes,
-    worker count, byte budget, sharding, alignment, failing tensors and a schedule profile."""
+    """One save: tensor objects, their uses (an object may back several initializers), sizes
+    (0 bytes .. 8000), entry point, worker count, byte budget, sharding (random limit or a
+    shard-by-shard plan), alignment, failing tensors and a schedule profile."""
     mode = "sharded" if rng.random() < 0.4 else "single"
-    n_obj = rng.randint(2, 10)
-    mix = rng.choice(["tiny", "mixed", "mixed", "mixed", "big", "equal"])
-    base = rng.randint(8, 600)
+    layout = "planned" if mode == "sharded" and rng.random() < 0.45 else "greedy"
+    max_shard = None
+    if layout == "planned":
+        obj_sizes, uses, max_shard, workers = _planned_shards(rng)
+        n_obj = len(obj_sizes)
+    else:
+        n_obj = rng.randint(2, 10)
+        mix = rng.choice(["tiny", "mixed", "mixed", "mixed", "big", "equal"])
+        base = rng.randint(8, 600)
 
-    def size() -> int:
-        if mix == "tiny":
-            return rng.randint(1, 48)
-        if mix == "big":
-            return rng.randint(400, 6000)
-        if mix == "equal":
-            return base
-        r = rng.random()
-        if r < 0.4:
-            return rng.randint(1, 64)
-        if r < 0.8:
-            return rng.randint(65, 1200)
-        return rng.randint(1200, 8000)
+        def size() -> int:
+            if mix == "tiny":
+                return rng.randint(1, 48)
+            if mix == "big":
+                return rng.randint(400, 6000)
+            if mix == "equal":
+                return base
+            r = rng.random()
+            if r < 0.4:
+                return rng.randint(1, 64)
+            if r < 0.8:
+                return rng.randint(65, 1200)
+            return rng.randint(1200, 8000)
 
+        obj_sizes = [size() for _ in range(n_obj)]
+        uses = list(range(n_obj))
+        if rng.random() < 0.55:
+            for _ in range(rng.randint(1, 2)):
+                o = rng.randrange(n_obj)
+                for _ in range(rng.randint(1, 3)):
+                    uses.insert(rng.randrange(len(uses) + 1), o)
+        if rng.random() < 0.25:
+            rng.shuffle(uses)
+    # zero-element tensors: legitimate initializers whose reservation is 0 bytes
+    if rng.random() < 0.25:
+        for _ in range(rng.randint(1, 2)):
+            obj_sizes.append(0)
+            for _ in range(rng.choice([1, 1, 2])):
+                uses.insert(rng.randrange(len(uses) + 1), n_obj)
+            n_obj += 1
     objs = []
-    for _ in range(n_obj):
-        s = size()
+    for s in obj_sizes:
         itemsize = rng.choice([i for i in (1, 2, 4, 8) if s % i == 0])
         objs.append({"size": s, "itemsize": itemsize, "tofile": rng.random() < 0.75, "chunks": rng.random() < 0.5})
-    uses = list(range(n_obj))
-    if rng.random() < 0.55:
-        for _ in range(rng.randint(1, 2)):
-            o = rng.randrange(n_obj)
-            for _ in range(rng.randint(1, 3)):
-                uses.insert(rng.randrange(len(uses) + 1), o)
-    if rng.random() < 0.25:
-        rng.shuffle(uses)
     sizes = [objs[o]["size"] for o in uses]
     total, mx, srt = sum(sizes), max(sizes), sorted(sizes)
-    budget = rng.choice([
-        1, 1, srt[0], srt[len(srt) // 2], srt[len(srt) // 2], max(1, mx - 1), mx,
-        max(1, total // 2), total + 10, rng.randint(1, total),
-    ])
-    workers = rng.choice([2, 2, 3, 4, 4, 6, 8])
-    max_shard = None
-    if mode == "sharded":
-        max_shard = max(1, total // rng.randint(2, 5))
-        workers = rng.choice([2, 3, 4, 4, 6, 8])
+    budget = max(1, rng.choice([
+        1, 1, srt[0], srt[len(srt) // 2], srt[len(srt) // 2], mx - 1, mx,
+        total // 2, total + 10, rng.randint(1, total),
+    ]))
+    if layout == "greedy":
+        workers = rng.choice([2, 2, 3, 4, 4, 6, 8])
+        if mode == "sharded":
+            max_shard = max(1, total // rng.randint(2, 5))
+            workers = rng.choice([2, 3, 4, 4, 6, 8, 12, 16])
     alignment = None
     align_threshold = 0
     if rng.random() < 0.15:
@@ -121,9 +166,13 @@ def gen_spec(rng: random.Random) -> dict:
         for o in rng.sample(range(n_obj), 1 if rng.random() < 0.75 or n_obj < 3 else 2):
             fail[str(o)] = [rng.choice(["early", "mid", "late"]), "base" if rng.random() < 0.12 else "exc"]
     cb_fail = rng.randrange(len(uses)) if rng.random() < 0.06 else None
+    # entry point: ir.save (-> unload_from_model) or the public tensor-level writer; ir.save only
+    # externalises tensors with nbytes > size_threshold_bytes, so zero-byte tensors need -1 there
+    api = "convert" if mode == "single" and rng.random() < 0.3 else "save"
     return {
         "cb_fail": cb_fail,
-        "mode": mode, "objs": objs, "uses": uses, "budget": budget, "workers": workers,
+        "mode": mode, "layout": layout, "api": api, "threshold": -1 if 0 in sizes else 0,
+        "objs": objs, "uses": uses, "budget": budget, "workers": workers,
         "max_shard": max_shard, "alignment": alignment, "align_threshold": align_threshold,
         "fail": fail, "profile": rng.choice(PROFILES), "p_yield": rng.choice([0, 0, 0.02, 0.1, 0.3]),
         "data_seed": rng.getrandbits(32),
@@ -631,12 +680,22 @@ def _files(d: str) -> dict[str, bytes]:
 # ------------------------------------------------------------------------------------------------
 # one case = serial reference save + one monitored concurrent save
 # ------------------------------------------------------------------------------------------------
-def _save(model, directory: str, spec: dict, **kw) -> None:
+def _save(model, tensors, directory: str, spec: dict, **kw):
+    """One external-data save through the entry point named by the case; returns what the
+    tensor-level writer reports about each written tensor (None for ir.save)."""
+    if spec.get("api") == "convert":
+        ext = ed.convert_tensors_to_external(
+            [tensors[o] for o in spec["uses"]], directory, "m.data", alignment=spec["alignment"],
+            align_threshold=spec["align_threshold"], **kw,
+        )
+        return [(str(t.location), t.offset, t.length) for t in ext]
     ir.save(
-        model, os.path.join(directory, "m.onnx"), external_data="m.data", size_threshold_bytes=0,
+        model, os.path.join(directory, "m.onnx"), external_data="m.data",
+        size_threshold_bytes=spec.get("threshold", 0),
         max_shard_size_bytes=spec["max_shard"], alignment=spec["alignment"],
         align_threshold=spec["align_threshold"], **kw,
     )
+    return None
 
 
 def run_case(seed: int, case: int, rep: int, tmp_root: str, spec: dict | None = None) -> dict:
@@ -650,8 +709,8 @@ def run_case(seed: int, case: int, rep: int, tmp_root: str, spec: dict | None = 
     os.makedirs(a)
     os.makedirs(b)
     try:
-        model0, _ = build_model(spec, _Box(None), faults=False)
-        _save(model0, a, spec)  # serial reference: no workers, no monitor, no faults
+        model0, tensors0 = build_model(spec, _Box(None), faults=False)
+        ret_serial = _save(model0, tensors0, a, spec)  # serial reference: no workers, no monitor, no faults
 
         mon = Monitor(spec, sched_rng)
         model, tensors = build_model(spec, _Box(mon), faults=True)
@@ -674,8 +733,8 @@ def run_case(seed: int, case: int, rep: int, tmp_root: str, spec: dict | None = 
         STATE.in_save = True
         exc_name = None
         try:
-            _save(model, b, spec, callback=callback, max_workers=spec["workers"],
-                  max_in_flight_bytes=spec["budget"])
+            ret_conc = _save(model, tensors, b, spec, callback=callback, max_workers=spec["workers"],
+                             max_in_flight_bytes=spec["budget"])
             outcome = "returned"
         except (KeyboardInterrupt, SystemExit):
             raise
@@ -721,6 +780,9 @@ def run_case(seed: int, case: int, rep: int, tmp_root: str, spec: dict | None = 
         if outcome == "returned" and not st["injected_raises"]:
             fa, fb = _files(a), _files(b)
             compared = True
+            if ret_serial != ret_conc:
+                viol.append((f"output-differs-from-serial|{mode}|returned-external-tensors",
+                             f"(location, offset, length) per tensor: serial {ret_serial}, concurrent {ret_conc}"))
             if sorted(fa) != sorted(fb):
                 viol.append((f"output-differs-from-serial|{mode}|file-set",
                              f"serial save wrote {sorted(fa)}, concurrent save wrote {sorted(fb)}"))
